@@ -32,8 +32,6 @@ def run_rt(prog, knobs, tape, emit, loopback=False, seed=7, driver=None):
     w = world.RtWorld(tape, knobs, seed=seed).boot()
     k = w.kernel
     main = w.main
-    if knobs.get('line_mean'):
-        enable_line_preemption(w)
     target = ('127.0.0.1', main._osc_interface.port) if loopback \
         else ('127.0.0.1', 57110)
     it = rprog.Interp(prog, main, 'rt', kernel=k, net=w.net, target=target)
